@@ -34,6 +34,11 @@ def gen_case(r):
         i = r.below(len(rules))
         rules[i] = rules[i].replace(cond=c17.gen_leaf_with_paths(r, d, jsonable=True), cast=None)
         patharg = True
+    if rules and r.pct() < 12:
+        from . import c11
+        from ..terms import Leaf
+        i = r.below(len(rules))
+        rules[i] = rules[i].replace(cond=Leaf("value", None, r.choice(["equal_to", "not_equal_to", "in_"]), kwargs={"value": c11.pathy_literal(r)}))
     # plant castable strings as in C15
     GOOD = {"bool": ["true", "True", "FALSE", "false"], "int": ["3", "-12", " 7 "]}
     for rl in rules:
